@@ -445,6 +445,26 @@ def m_isdigit(it, s, args):
     return SV("bool", f_isdigit(s.t))
 
 
+f_isdecimal = z3.Function("py_isdecimal", S, B)
+
+
+def m_isdecimal(it, s, args):
+    """str.isdecimal(): every character is a Unicode decimal digit (category Nd), non-empty.  T-str: such a string is also
+    isdigit(), and int() accepts it (int() takes any Nd digits) with a non-negative value."""
+    if not isinstance(s, SV):
+        return s.isdecimal()
+    t = s.t
+    A = it.ctx.assume
+    d = f_isdecimal(t)
+    ax_isdigit(it, t)
+    A(z3.Implies(d, f_isdigit(t)))
+    A(z3.Implies(d, z3.Length(t) > 0))
+    A(z3.Implies(z3.InRe(t, z3.Plus(z3.Range("0", "9"))), d))
+    ok = z3.Function("py_int_ok", S, B)
+    A(z3.Implies(d, ok(t)))
+    return SV("bool", d)
+
+
 def m_startswith(it, s, args):
     p = args[0]
     if isinstance(p, tuple):
@@ -699,6 +719,7 @@ STR_METHODS = {
     "strip": lambda it, s, a, k: m_strip(it, s, a),
     "lower": lambda it, s, a, k: m_lower(it, s, a),
     "isdigit": lambda it, s, a, k: m_isdigit(it, s, a),
+    "isdecimal": lambda it, s, a, k: m_isdecimal(it, s, a),
     "startswith": lambda it, s, a, k: m_startswith(it, s, a),
     "endswith": lambda it, s, a, k: m_endswith(it, s, a),
     "partition": lambda it, s, a, k: m_partition(it, s, a),
